@@ -74,6 +74,7 @@ def cases(draw):
         c["remove"] = draw(st.integers(0, 2))
         # a temp file left behind by an earlier, killed update (longer than the next cache)
         c["stray_tmp"] = draw(st.integers(0, 2)) == 0
+        c["cli"] = draw(st.integers(0, 2)) == 0
         return c
     c["old"] = draw(docs)
     route = draw(st.sampled_from(["setitem", "update", "reset", "assign", "assign", "clear", "list_append", "buffered"]))
@@ -187,6 +188,17 @@ def make_writer(case, root, ids):
 
     def act(state):
         if case["target"] == "cache":
+            if case.get("cli"):
+                # the command line front end (`signac update-cache` in the project directory)
+                import contextlib
+                import io
+
+                from signac import __main__ as cli
+
+                os.chdir(root)
+                with contextlib.redirect_stderr(io.StringIO()):
+                    cli.main_update_cache(None)
+                return None
             return state.update_cache()
         project, doc, others = state
         r = case["route"]
@@ -577,6 +589,8 @@ CONSTRUCTED = [
     {"target": "jobdoc", "threads": True, "torn": [3], "reader": "raw", "with_reader": False, "old": {"x": "s", "l": [], "n": {"y": 1}}, "route": "buffered", "k": "x", "v": [1, 2], "m": {}, "others": [[1, "v"], [2, BIG]]},
     {"target": "cache", "threads": True, "torn": [9], "reader": "raw", "with_reader": True, "old_jobs": 2, "cache_exists": True, "add": 2, "remove": 0, "interrupts": True},
     {"target": "cache", "threads": True, "torn": [], "reader": "raw", "with_reader": False, "old_jobs": 3, "cache_exists": True, "add": 0, "remove": 2, "interrupts": True},
+    {"target": "cache", "threads": True, "torn": [], "reader": "raw", "with_reader": False, "old_jobs": 2, "cache_exists": True, "add": 1, "remove": 0, "interrupts": True, "cli": True},
+    {"target": "cache", "threads": True, "torn": [5], "reader": "api", "with_reader": True, "old_jobs": 1, "cache_exists": False, "add": 2, "remove": 0, "interrupts": True, "cli": True},
     {"target": "cache", "threads": True, "torn": [4], "reader": "raw", "with_reader": False, "old_jobs": 1, "cache_exists": False, "add": 1, "remove": 0},
     {"target": "cache", "threads": True, "torn": [], "reader": "raw", "with_reader": False, "old_jobs": 3, "cache_exists": True, "add": 0, "remove": 1, "bulk_add": 2001},
     {"target": "cache", "threads": True, "torn": [], "reader": "raw", "with_reader": True, "old_jobs": 2, "cache_exists": True, "add": 0, "remove": 1, "stray_tmp": True},
